@@ -228,6 +228,11 @@ def run(ctx):
             out = observe(env.from_data, v, T)
             if out.kind == 'value':
                 observe(env.into_data, out.val, T)
+            elif out.kind == 'escape':
+                # a union that neither succeeds nor reports that no member accepts
+                ctx.violation('union-succeeds-iff-a-member-does', 'nested', i,
+                              {'type': describe(ty), 'value': short(v, 300), 'outcome': out.brief()}, mech=f"nested-union-escape:{type(out.exc).__name__}")
+                return
 
     def gen_nested(ctx_, rng):
         u = gen_union(ctx_, rng)
@@ -236,7 +241,9 @@ def run(ctx):
         if wrap == 'dict': return Ty('dict', [Ty('str'), u])
         if wrap == 'tup': return Ty('tup', [u, Ty('int')])
         if wrap == 'dc': return _dc([FieldM('alpha', u), FieldM('count', Ty('int'), 'val', 0)])
-        if wrap == 'vol': return Ty('vol', [Ty('union', [Ty('int'), Ty('float')])])
+        if wrap == 'vol':
+            # ValueOrList[...] of a union / an optional: the helper's own union then has members that are unions themselves
+            return Ty('vol', [rng.choice((Ty('union', [Ty('int'), Ty('float')]), Ty('union', [Ty('int'), Ty('none')]), Ty('union', [Ty('str'), Ty('int')])))])
         return Ty('union', gentypes.dedupe_members([Ty('none')] + list(u.a)))
 
     drive.for_each_case(ctx, 'nested', ctx.budget // 2, body_nested, gen=gen_nested)
@@ -252,6 +259,9 @@ def run(ctx):
             return
         p = rng.randrange(len(members_py))
         how = rng.choice(('own', 'repeat', 'union'))
+        none_at = [j for j, m in enumerate(members_py) if m is type(None)]
+        if none_at and rng.random() < 0.5:
+            p, how = none_at[0], 'own'
         if how == 'own':
             arg_members = [members_py[p]]
         elif how == 'repeat':
@@ -263,6 +273,9 @@ def run(ctx):
             ann = {'value': t.Union[tuple(written)]}
             G = types.new_class(f"G{next(_serial)}", (env.PaneBase, t.Generic[TV]), {}, lambda ns: ns.update({'__annotations__': ann, '__module__': __name__}))
             arg = arg_members[0] if len(arg_members) == 1 else t.Union[tuple(arg_members)]
+            if arg is type(None) and rng.random() < 0.7:
+                arg = None              # `G[None]`, as one writes it: None means NoneType in a subscript
+                ctx.count('generic_bound_to_None')
             GA = G[arg]
         except Exception as e:
             ctx.count('generic_unbuildable')
